@@ -6,6 +6,18 @@ usage: baseline.py [repo_dir]
 import json, os, subprocess, sys, tempfile, xml.etree.ElementTree as ET
 
 def main():
+    import time
+    for attempt in range(4):
+        rc, missing = once()
+        # the suite uses fixed TCP ports: two baselines running at the same time make test_infra_communication fail
+        if rc == 0 or not all("test_infra_communication" in m for m in missing):
+            return rc
+        print("  (only port-bound tests failed: another baseline is probably running; retrying)")
+        time.sleep(15 + 20 * attempt)
+    return rc
+
+
+def once():
     repo = sys.argv[1] if len(sys.argv) > 1 else "/repo"
     base = json.load(open("/root/.vp/BASELINE.json"))
     stable = set(base["stable_pass"])
@@ -32,7 +44,7 @@ def main():
         print("  NOT PASSING:", m)
     if missing:
         print(p.stdout[-3000:])
-    return 1 if missing else 0
+    return (1 if missing else 0), missing
 
 if __name__ == "__main__":
     sys.exit(main())
